@@ -11,7 +11,9 @@ ID = "C15"
 LEVEL = "exploration"
 RULE = ("(1) for each sampled key, every n in 2..12 and every x in {0,1}^n: image of encrypt is all of {0,1}^n with len == n, "
         "decrypt(encrypt(x)) == x and encrypt(decrypt(x)) == x (exhaustive per key); the same through BitwiseFPEPRP.__call__; "
-        "(2) Hypothesis: random n up to 2100 bits biased to odd n and 159/160/161/319/320/321, random x and keys of 0..64 bytes; "
+        "(2) Hypothesis: random n up to 2100 bits biased to odd n and 159/160/161/319/320/321, random x and keys of 0..64 bytes; in (1) and (2) the n-bit input is obtained in one of eight ways library code obtains Bitsets "
+        "(constructor, padding through the public length attribute, the padded left half from half_bits, concatenation, lower/higher "
+        "bits of a longer string, copy, from bytes) and must encrypt like the constructor-built equal string; "
         "(3) byte PRPs: message lengths 2..64 (even), key lengths 3*{1..32}, sha1/sha256/md5, compared with an independent "
         "3-round Feistel over an independent P_hash and inverted by the harness's inverse network; all 65536 two-byte messages "
         "exhaustively for sampled keys; wrong lengths raise ValueError. Non-trivial = n >= 13 or odd n (FFX), or a byte-PRP "
@@ -77,6 +79,41 @@ def _chk(bs, n, what):
         raise Violation("%s: output value out of range for n=%d" % (what, n), what + ":range")
 
 
+ROUTES = ["ctor", "length_assign", "half_bits_left", "concat", "lower_bits", "higher_bits", "copy_ctor", "bytes_ctor"]
+
+
+def make_bits(x, n, route):
+    """the n-bit string x as a Bitset obtained the way library code obtains them: by the constructor, by padding through the
+    public `length` attribute (the idiom of toolkit.bits_utils.half_bits), as a half of a longer string, by concatenation,
+    by slicing.  Falls back to the constructor where a route cannot produce (x, n); returns (bitset, route actually used)."""
+    from toolkit.bits import Bitset
+    from toolkit import bits_utils
+    b = None
+    try:
+        if route == "length_assign" and x < (1 << (n - 1)):
+            b = Bitset(x, max(1, x.bit_length()))
+            b.length = n
+        elif route == "half_bits_left" and x < (1 << (n - 1)):
+            # an odd-length (2n-1) string whose upper n-1 bits are x: half_bits pads the left half to n bits
+            b = bits_utils.half_bits(Bitset((x << n) | (x ^ 1) % (1 << n), 2 * n - 1))[0]
+        elif route == "concat" and n >= 2:
+            lo = n // 2
+            b = Bitset(x >> lo, n - lo) + Bitset(x & ((1 << lo) - 1), lo)
+        elif route == "lower_bits":
+            b = Bitset((0b101 << n) | x, n + 3).get_lower_bits(n)
+        elif route == "higher_bits":
+            b = Bitset((x << 3) | 0b011, n + 3).get_higher_bits(n)
+        elif route == "copy_ctor":
+            b = Bitset(Bitset(x, n), n)
+        elif route == "bytes_ctor":
+            b = Bitset(x.to_bytes((n + 7) // 8, "big"), n)
+    except Exception:
+        b = None
+    if b is None or not isinstance(b, Bitset) or len(b) != n or int(b) != x or not (b == Bitset(x, n)):
+        return Bitset(x, n), "ctor"   # whether the routes themselves work is C18's subject
+    return b, route
+
+
 def run_case(case):
     from toolkit.bits import Bitset
     from toolkit.symmetric_encryption.fpe import BitwiseFFX
@@ -90,7 +127,7 @@ def run_case(case):
             kb = Bitset(key, len(key) * 8)
             seen = set()
             for x in range(1 << n):
-                v = Bitset(x, n)
+                v, used = make_bits(x, n, ROUTES[(x + n) % len(ROUTES)])
                 e = ffx.encrypt(key, v)
                 _chk(e, n, "ffx.encrypt")
                 seen.add(int(e))
@@ -103,7 +140,7 @@ def run_case(case):
                 if int(ffx.encrypt(key, d2)) != x:
                     raise Violation("encrypt(decrypt(%d)) != %d (n=%d)" % (x, x, n), "ffx:inverse2")
                 if len(key) > 0:
-                    p = prp(kb, Bitset(x, n))
+                    p = prp(kb, make_bits(x, n, ROUTES[(x + n + 1) % len(ROUTES)])[0])
                     _chk(p, n, "BitwiseFPEPRP")
                     if int(p) != int(e):
                         raise Violation("BitwiseFPEPRP(k, x) differs from BitwiseFFX.encrypt(k, x)", "fpeprp:differs")
@@ -112,9 +149,12 @@ def run_case(case):
         elif kind == "ffx_random":
             key, n, x = B(case["key"]), case["n"], case["x"] % (1 << case["n"])
             ffx = BitwiseFFX()
-            v = Bitset(x, n)
+            v, used = make_bits(x, n, case.get("route", "ctor"))
             e = ffx.encrypt(key, v)
             _chk(e, n, "ffx.encrypt")
+            if used != "ctor" and int(ffx.encrypt(key, Bitset(x, n))) != int(e):
+                raise Violation("the same %d-bit string encrypts differently depending on how the Bitset was obtained (%s vs constructor)"
+                                % (n, used), "ffx:route_dependent")
             d = ffx.decrypt(key, e)
             _chk(d, n, "ffx.decrypt")
             if int(d) != x:
@@ -123,7 +163,7 @@ def run_case(case):
             _chk(d2, n, "ffx.decrypt")
             if int(ffx.encrypt(key, d2)) != x:
                 raise Violation("encrypt(decrypt(x)) != x (n=%d)" % n, "ffx:inverse2")
-            if int(ffx.encrypt(key, Bitset(x, n))) != int(e):
+            if int(ffx.encrypt(key, make_bits(x, n, case.get("route", "ctor"))[0])) != int(e):
                 raise Violation("encrypt is not deterministic", "ffx:determinism")
             y = case["y"] % (1 << n)
             if y != x and int(ffx.encrypt(key, Bitset(y, n))) == int(e):
@@ -211,7 +251,9 @@ def st_case(draw):
         klen = draw(st.one_of(st.integers(0, 64), st.sampled_from([0, 1, 16, 24, 32, 64])))
         c.update(n=n, key=draw(st.binary(min_size=klen, max_size=klen)).hex(),
                  x=draw(st.one_of(st.integers(0, (1 << n) - 1), st.sampled_from([0, 1, (1 << n) - 1, 1 << (n - 1)]))),
-                 y=draw(st.integers(0, (1 << n) - 1)))
+                 y=draw(st.integers(0, (1 << n) - 1)), route=draw(st.sampled_from(ROUTES)))
+        if c["route"] in ("length_assign", "half_bits_left") and draw(st.booleans()):
+            c["x"] = c["x"] % (1 << (n - 1))   # these routes produce strings with a leading zero bit
     elif kind == "lr":
         mlen = 2 * draw(st.integers(1, 32))
         klen = 3 * draw(st.integers(1, 32))
@@ -255,6 +297,10 @@ def classes_of(c):
         n = c["n"]
         out.append("n:" + ("2-12" if n <= 12 else "13-160" if n <= 160 else "161-640" if n <= 640 else "641-2100"))
         out.append("n:odd" if n % 2 else "n:even")
+        r = c.get("route", "ctor")
+        if r in ("length_assign", "half_bits_left") and c["x"] % (1 << n) >= (1 << (n - 1)):
+            r = "ctor"
+        out.append("bitset_obtained_by:" + r)
         out.append("keylen:%s" % ("0" if not c["key"] else "1-31" if len(c["key"]) < 64 else "32+"))
     if c["kind"] == "lr":
         out.append("lr:digest=" + c["digest"])
